@@ -21,7 +21,15 @@ Record obs := mkO {
                                                      after HRotate: of every proposal *)
   o_world : option world }.                       (* the state outside the lifecycle, when it changed *)
 
-Inductive c08_case := CHist (w0 : world) (steps : list (Z * Z * hop * obs)).
+(* CScen: a scripted scenario on a REAL multi-step handler of another module (spending, basket, gov
+   durations): a proposal is submitted while all steps of its Apply would succeed, passes, and before
+   the enactment the harness makes the k-th step fail (or not: [expect_fail = false]).  Observed after
+   the enactment block: the handler calls made for it, the handler's success, ExecResult / Result, whether
+   ALL stores of the application are byte-identical to before the block except the proposal's own record
+   and queue entry ([unchanged]), and whether the content's complete effect is present ([full]). *)
+Inductive c08_case :=
+| CHist (w0 : world) (steps : list (Z * Z * hop * obs))
+| CScen (name : string) (expect_fail : bool) (ncalls : Z) (ok : bool) (exec res : Z) (unchanged full : bool).
 
 (* ---------------------------------------------------------------- equality helpers *)
 Fixpoint list_eqb {X} (e : X -> X -> bool) (l m : list X) : bool :=
@@ -107,7 +115,12 @@ Fixpoint steps_match (s : cstate) (l : list (Z * Z * hop * obs)) : bool :=
   match l with [] => true | st :: r => let '(b, s') := step_matches s st in b && steps_match s' r end.
 
 Definition case_matches (c : c08_case) : bool :=
-  match c with CHist w0 steps => steps_match (init w0) steps end.
+  match c with
+  | CHist w0 steps => steps_match (init w0) steps
+  | CScen _ expect_fail ncalls ok exec res _ _ =>
+      (* the scenario did what it was scripted to do: enacted once, and the scripted step failed or not *)
+      (ncalls =? 1) && (res =? 1) && Bool.eqb ok (negb expect_fail)
+  end.
 
 Fixpoint mismatches_from (n : nat) (cs : list c08_case) : list nat :=
   match cs with [] => [] | c :: r => if case_matches c then mismatches_from (S n) r else n :: mismatches_from (S n) r end.
@@ -283,10 +296,10 @@ Definition ck_step (k : ck) (st : Z * Z * hop * obs) : list string * ck :=
     match hp with
     | HSubmit who ct =>
         if accepted then
-          let vend := t + fst (spec_window w ct) in
+          let vend := t + NS * fst (spec_window w ct) in
           (cl (match find_rec (o_new_id o) recs2 with None => true | Some _ => false end) "proposal_id_reused"
            ++ cl (match obs_result (o_new_id o) o with Some (4, 0) => true | _ => false end) "new_proposal_not_pending",
-           recs2 ++ [mkR (o_new_id o) ct vend (vend + snd (spec_window w ct)) (h + n_endblocks (w_np w)) 4 None 0 []])
+           recs2 ++ [mkR (o_new_id o) ct vend (vend + NS * snd (spec_window w ct)) (h + n_endblocks (w_np w)) 4 None 0 []])
         else ([], recs2)
     | HVote who id opt =>
         match find_rec id recs2 with
@@ -324,8 +337,19 @@ Fixpoint ck_run (k : ck) (l : list (Z * Z * hop * obs)) : list string :=
 Fixpoint dedup (l : list string) : list string :=
   match l with [] => [] | x :: r => if str_in x r then dedup r else x :: dedup r end.
 
+(* "applied completely or not at all", on the whole application state *)
+Definition scen_clauses (name : string) (ncalls : Z) (ok : bool) (exec : Z) (unchanged full : bool) : list string :=
+  cl (ncalls <=? 1) (String.append "applied_twice:" name)
+  ++ (if ncalls =? 0 then [] else
+      cl (if ok then full else unchanged)
+         (String.append (if ok then "atomic:success_without_complete_effect:" else "atomic:failure_left_writes:") name)
+      ++ cl (exec =? (if ok then 1 else 2)) (String.append "exec_flag:" name)).
+
 Definition case_clauses (c : c08_case) : list string :=
-  match c with CHist w0 steps => dedup (ck_run (mkK w0 []) steps) end.
+  match c with
+  | CHist w0 steps => dedup (ck_run (mkK w0 []) steps)
+  | CScen name _ ncalls ok exec _ unchanged full => scen_clauses name ncalls ok exec unchanged full
+  end.
 
 Fixpoint violations_from (n : nat) (cs : list c08_case) : list (nat * list string) :=
   match cs with [] => [] | c :: r =>
